@@ -191,8 +191,15 @@ def array(x, dtype=None):
     raise Unsupported('np.array(%r)' % type(x))
 
 
-asarray = array
-asanyarray = array
+def asarray(x, dtype=None):
+    """np.asarray / np.asanyarray: NO copy when the argument already is an array of the requested type (the result aliases the
+    argument: a later in-place write reaches the caller's buffer); otherwise as np.array"""
+    if isinstance(x, SArr) and (dtype is None or _kind_from_dtype(dtype, x.kind) == x.kind):
+        return x
+    return array(x, dtype=dtype)
+
+
+asanyarray = asarray
 
 
 def _conv(e, k):
@@ -729,7 +736,25 @@ def hstack(arrs):
     raise Unsupported('hstack')
 
 
-def squeeze(a):
+def squeeze(a, axis=None):
+    if isinstance(a, SArr) and axis is not None:
+        # np.squeeze(a, axis=k): axis k must have extent 1 (numpy raises otherwise) and is dropped; every other axis is kept
+        ax = concrete(axis)
+        if ax is None or isinstance(axis, (tuple, list)):
+            raise Unsupported('squeeze with a symbolic / multiple axis')
+        if ax < 0:
+            ax += a.ndim
+        if not (0 <= ax < a.ndim):
+            raise Unsupported('squeeze axis out of range')
+        if not Ctx.spec and concrete(a.shape_e[ax]) != 1:
+            C().oblige('squeeze-axis-has-extent-1', a.shape_e[ax] == 1, 'safety')
+
+        def six1(ix):
+            ix = list(ix)
+            ix.insert(ax, z3.IntVal(0))
+            return ix
+        return SArr(tuple(s_ for d, s_ in enumerate(a.shape_e) if d != ax), lambda *ix: a.elem(*six1(ix)), a.kind,
+                    nan=None if a.nan is None else (lambda *ix: a.nan(*six1(ix))), buf=a.buf, view_of=a)
     if isinstance(a, SArr):
         keep = [d for d, s in enumerate(a.shape_e) if concrete(s) != 1 and not (concrete(s) is None and Ctx.cur is not None and not Ctx.spec and C().entails(s == 1))]
         for d in keep:
